@@ -79,7 +79,7 @@ def run(ctx):
              "generator (helpers, (mutual) recursion, while, if/else, early return, compound assignment, shadowing, dead code) x 30 "
              "argument tuples (boundary, random, small); T5 tie: 16 class representatives (one per construct of the fragment) first, then "
              "generated i32/bool programs with variables named by level: Spec value = composed-model value = JIT value on every tuple, and "
-             "the model's structured MIR = the real MIR dump of every function, and the LIR model on the real MIR = the real LIR of every function; a class is distinct by (type, operator, outcome) in the table, by program "
+             "the model's structured MIR = the real MIR dump of every function, the LIR model on the real MIR = the real LIR of every function, and mRun (real MIR) = lRun (model LIR) = Spec value; a class is distinct by (type, operator, outcome) in the table, by program "
              "text with >=1 execution where the Spec yields a value and the JIT agrees, by (construct set, arg type, ret type), or (t5:) by "
              "construct set of a fragment program whose MIR comparison succeeded on all functions",
         search=search,
